@@ -244,6 +244,35 @@ func checkC18(c C18Case, o *Obs) error {
 			}
 		}
 	}
+	// The source object of an abandoned iteration is the caller's: re-pointed at other data
+	// (bytes.Reader.Reset, a refilled bytes.Buffer) and handed to Reader again, it is read like any
+	// other stream - nothing of the abandoned input comes back.
+	if codec := codecs[c.Iter]; codec != nil && c.Fault == 0 && !c.LineReads && N >= 2 && len(smallInputs[c.Iter]) > 0 {
+		o.Class("source object re-pointed after an abandoned pass")
+		text := c.Text.Render(false)
+		other := []byte(smallInputs[c.Iter][len(text)%len(smallInputs[c.Iter])])
+		want, wover, wp := collect(func(cb func(Item) bool) { codec.Reader(bytes.NewReader(other), cb) }, len(other)+16)
+		if wp == nil && !wover {
+			br := bytes.NewReader(text)
+			collect(func(cb func(Item) bool) { codec.Reader(br, cb) }, 1)
+			br.Reset(other)
+			got, gover, gp := collect(func(cb func(Item) bool) { codec.Reader(br, cb) }, len(other)+16)
+			if gp != nil || gover || !sameItems(got, want) {
+				return fmt.Errorf("%s: a *bytes.Reader whose first iteration was abandoned after one item, then Reset to other data and handed to Reader again, yields %s (panic %v), want %s (first input %s, second input %s)",
+					c.Iter, describeItems(got), gp, describeItems(want), gen.Abbrev(text), gen.Abbrev(other))
+			}
+			var bb bytes.Buffer
+			bb.Write(text)
+			collect(func(cb func(Item) bool) { codec.Reader(&bb, cb) }, 1)
+			bb.Reset()
+			bb.Write(other)
+			got, gover, gp = collect(func(cb func(Item) bool) { codec.Reader(&bb, cb) }, len(other)+16)
+			if gp != nil || gover || !sameItems(got, want) {
+				return fmt.Errorf("%s: a *bytes.Buffer whose first iteration was abandoned after one item, then refilled with other data and handed to Reader again, yields %s (panic %v), want %s (first input %s, second input %s)",
+					c.Iter, describeItems(got), gp, describeItems(want), gen.Abbrev(text), gen.Abbrev(other))
+			}
+		}
+	}
 	o.ClassIf(hasErr, "has error item")
 	o.ClassIf(c.Fault > 0, "failing stream")
 	o.ClassIf(N == 0, "no items")
@@ -417,6 +446,44 @@ func exhaustiveC18(thorough bool, emit func(C18Case) bool) {
 		}
 		if !emit(C18Case{Iter: f, Text: StreamText{Raw: raw.Bytes()}, LineReads: true}) {
 			return
+		}
+	}
+	// more than a thousand good records, a malformed one, five more good ones: the error item
+	// is the last item however many records precede it
+	for _, f := range []string{"fastq", "bed", "newick", "fasta"} {
+		for _, n := range []int{1023, 1025, 2000, 3001} {
+			var raw bytes.Buffer
+			rec := func(i int) {
+				switch f {
+				case "fasta":
+					fmt.Fprintf(&raw, ">r%d\nACGT%d\n", i, i)
+				case "fastq":
+					fmt.Fprintf(&raw, "@r%d\nACGTA\n+\nII%03d\n", i%1000, i%1000)
+				case "bed":
+					fmt.Fprintf(&raw, "c\t%d\t%d\tn%d\n", i, i+5, i)
+				case "newick":
+					fmt.Fprintf(&raw, "(a%d,b)c;\n", i)
+				}
+			}
+			for i := 0; i < n; i++ {
+				rec(i)
+			}
+			switch f {
+			case "fastq":
+				raw.WriteString("r-without-at\nACGTA\n+\nIIIII\n")
+			case "bed":
+				raw.WriteString("c\t1\n")
+			case "newick":
+				raw.WriteString("(a,b));\n")
+			case "fasta":
+				raw.WriteString("\n") // (a FASTA text has no malformed records; the blank line is harmless)
+			}
+			for i := 0; i < 5; i++ {
+				rec(n + i)
+			}
+			if !emit(C18Case{Iter: f, Text: StreamText{Raw: raw.Bytes()}}) || (n == 1025 && !emit(C18Case{Iter: f + "-file", Text: StreamText{Raw: raw.Bytes()}})) {
+				return
+			}
 		}
 	}
 	// inputs as real tools write them, and a record with a line far longer than any line buffer
